@@ -3,10 +3,12 @@ import Thanos.Driver.Receive
 import Thanos.Model.Quorum
 import Thanos.Model.RWv2
 import Thanos.Model.Gate
+import Thanos.Model.GateId
 import Thanos.Model.Capnp
 import Thanos.Lemmas.Quorum
 import Thanos.Lemmas.Capnp
 import Thanos.Lemmas.CapnpOrder
+import Thanos.Lemmas.GateId
 import Thanos.Props.C22
 import Thanos.Props.C23
 import Thanos.Props.C24
